@@ -27,9 +27,11 @@ def undirected(links):
 
 
 # a mesh with one unamplified (fused - fibre - fused) short line between A and B: its OMS hold no amplifier
+# a square with a spur: E hangs on A only and can be crossed by no A - D route
+TOPOS['spur5'] = (['A', 'B', 'C', 'D', 'E'], [('A', 'B'), ('B', 'D'), ('A', 'C'), ('C', 'D'), ('A', 'E')])
 TOPOS['passive4'] = (['A', 'B', 'C', 'D'], [('A', 'C'), ('C', 'B'), ('A', 'D'), ('D', 'B'), ('A', 'B')])
 PASSIVE = {'passive4': [('A', 'B')]}
-names = ['ring3', 'ring4', 'mesh4', 'house5', 'passive4'] if a.tier == 'quick' else ['ring3', 'ring4', 'mesh4', 'full4', 'house5', 'passive4']
+names = ['ring3', 'ring4', 'mesh4', 'house5', 'passive4', 'spur5'] if a.tier == 'quick' else ['ring3', 'ring4', 'mesh4', 'full4', 'house5', 'passive4', 'spur5']
 for name in names:
     sites, links = TOPOS[name]
     topo = mesh(sites, links, spans={l: ([20] if l in PASSIVE.get(name, []) else LENS.get(l, LENS.get((l[1], l[0]), [80]))) for l in links},
@@ -40,12 +42,16 @@ for name in names:
     rg = nx.Graph()
     rg.add_edges_from(links)
 
+    loaded = {}
+
     def run(reqs, syncs, key):
         global cases, nontriv
         cases += 1
         data = {'path-request': reqs, 'synchronization': syncs}
         rqs = requests_from_json(data, eqpt)
         rqs = correct_json_route_list(net, rqs)
+        loaded.clear()
+        loaded.update({str(r.request_id): (list(r.nodes_list), list(r.loose_list)) for r in rqs})
         dsj = deduplicate_disjunctions(disjunctions_from_json(data))
         rqs, dsj = requests_aggregation(rqs, dsj)
         try:
@@ -104,7 +110,104 @@ for name in names:
         if others:
             reqs2 = [service(0, *t[0], include=[f'roadm {others[0]}'], strict=True)] + reqs[1:]
             run(reqs2, [sync(0, [0, 1])], f'{name}:with-include:{t}')
+    # a pair of synchronised requests, the first with a route list (1 - 3 hops, STRICT / LOOSE in every mix, sites that cannot be
+    # crossed, names that do not exist, the end points named in the list): what is loaded, and what comes out
+    if name not in ('spur5', 'mesh4'):
+        continue
+    (s, d) = ('A', 'D')
+    inner = [x for x in sites if x not in (s, d)]
+    hop_sets = [[f'roadm {x}'] for x in inner] + [[f'roadm {x}', f'roadm {y}'] for x, y in itertools.permutations(inner, 2)][:6]
+    variants = []
+    for hops in hop_sets:
+        for flags in itertools.product((True, False), repeat=len(hops)):
+            variants.append(list(zip(hops, flags)))
+    # hops inside a line: the booster behind the ROADM, the fibre, the preamplifier in front of the next ROADM
+    for (x, y) in [l for l in links + [(b_, a_) for a_, b_ in links] if l[0] == s][:2] + [l for l in links + [(b_, a_) for a_, b_ in links] if l[1] == d][:1]:
+        line = [u for u in by_uid if u.endswith(f'fiber ({x} -> {y})-0')]
+        for u in line:
+            variants.append([(u, True)])
+            variants.append([(u, False)])
+        fib = f'fiber ({x} -> {y})-0'
+        variants.append([(f'roadm {x}', True), (fib, True)])
+        variants.append([(fib, True), (f'roadm {x}', True)])       # in this order the two cannot be crossed
+    for hops in hop_sets[:3]:
+        # unknown names in front (LOOSE: skipped with a warning), the destination transceiver closing the list
+        variants.append([('ghost 1', False), ('ghost 2', False)] + [(hops[0], True)])
+        variants.append([('ghost 1', False)] + [(hops[0], False)] + [(f'trx {d}', True)])
+        variants.append([(hops[0], False), (f'trx {d}', True)])
+        variants.append([(f'trx {s}', True), (hops[0], True), (f'trx {d}', False)])
+        variants.append([(hops[0], True), ('ghost 3', True)])
+    for hops in variants:
+        # what the list means: end points named in it and unknown LOOSE names are dropped, an unknown STRICT name is refused
+        kept = list(hops)
+        if kept and kept[0][0] == f'trx {s}':
+            kept.pop(0)
+        if kept and kept[-1][0] == f'trx {d}':
+            kept.pop(-1)
+        refused = any(u not in by_uid and st for u, st in kept)
+        kept = [(u, st) for u, st in kept if u in by_uid]
+        key = f'{name}:pair-with-route-list:{[(u, "STRICT" if st else "LOOSE") for u, st in hops]}'
+        reqs = [service(0, s, d, include=[u for u, _ in hops], strict=[st for _, st in hops]), service(1, s, d)]
+        try:
+            st, by_id, rqs = run(reqs, [sync(0, [0, 1])], key)
+        except ServiceError as e:
+            if not refused:
+                wit.append({'key': key, 'problems': [f'ServiceError although every STRICT name of the list exists: {str(e)[:100]}']})
+            continue
+        if refused:
+            wit.append({'key': key, 'problems': ['a STRICT hop that does not exist in the network was accepted']})
+            continue
+        got = loaded.get('0')
+        want = ([u for u, _ in kept], ['STRICT' if x else 'LOOSE' for _, x in kept])
+        if got != want:
+            wit.append({'key': key, 'problems': [f'route list loaded as {got}, the document says {want}']})
+            continue
+
+        def expand(p):
+            # the element names along a route given as a sequence of sites
+            out = [f'trx {p[0]}']
+            for x, y in zip(p, p[1:]):
+                out.append(f'roadm {x}')
+                for first in net.successors(by_uid[f'roadm {x}']):
+                    chain, cur = [], first
+                    while not isinstance(cur, (Roadm, Transceiver)):
+                        chain.append(cur.uid)
+                        cur = next(net.successors(cur))
+                    if cur.uid == f'roadm {y}':
+                        out += chain
+                        break
+            return out + [f'roadm {p[-1]}', f'trx {p[-1]}']
+
+        def through(p, need):
+            # the names of `need` are met in this order along the route p (a sequence of sites)
+            it_ = iter(expand(p))
+            return all(any(x == n for x in it_) for n in need)
+        sols = [(p, q) for p in nx.all_simple_paths(rg, s, d) for q in nx.all_simple_paths(rg, s, d)
+                if not (undirected(zip(p, p[1:])) & undirected(zip(q, q[1:])))]
+        need_all = [u for u, _ in kept]
+        need_strict = [u for u, x in kept if x]
+        all_ok = any(through(p, need_all) for p, _ in sols)
+        strict_ok = any(through(p, need_strict) for p, _ in sols)
+        nontriv += 1
+        prob = []
+        if st == 'ok':
+            p0 = [e.uid.split(' ', 1)[1] for e in by_id['0'] if isinstance(e, Roadm)]
+            if not through(p0, need_strict):
+                prob.append(f'route {p0} returned although the STRICT hops {need_strict} are not crossed in order')
+            elif all_ok and not through(p0, need_all):
+                prob.append(f'route {p0} drops the hops {need_all} although a disjoint pair crossing them exists')
+        elif not strict_ok:
+            pass        # no combination satisfies the STRICT hops: the disjunction error is the stated outcome
+        elif not need_strict and sols:
+            prob.append(f'DisjunctionError although only LOOSE hops were asked for and disjoint routes exist ({sols[0]})')
+        elif all_ok:
+            prob.append(f'DisjunctionError although a disjoint pair crossing every hop {need_all} exists')
+        if st == 'ok' and not strict_ok:
+            prob.append(f'paths returned although no disjoint pair crosses the STRICT hops {need_strict}')
+        if prob:
+            wit.append({'key': key, 'problems': prob})
 finish('synchronised requests are link-disjoint in both directions; pairs complete', 'bounded',
        'gnpy.topology.request.compute_path_dsjctn (+ requests_aggregation, deduplicate_disjunctions)',
        f'topologies {names}: request pairs over 6x8 ordered site pairs with brute-force completeness, triples, overlapping '
-       'groups, include constraints', cases, wit, nontrivial=nontriv, t0=t0)
+       'groups, include constraints; on spur5 and mesh4 a pair whose first request carries a route list of 1 - 3 hops in every STRICT / LOOSE mix '
+       '(uncrossable sites, unknown names, end points named in the list) against a brute-force search', cases, wit, nontrivial=nontriv, t0=t0)
